@@ -278,6 +278,8 @@ def measure(A, L, S, R, dtype, rescaled):
         return o
     k = ks.pop()
     o["k"] = int(k)
+    if k == 0:
+        return o  # an empty bond: nothing to measure, the spec rejects k = 0
     o["svL2"] = _sv2(L, dtype)
     o["svR2"] = _sv2(R, dtype)
     if S is not None:
